@@ -664,7 +664,10 @@ def _interp_internal_from_weight(arr, axis, left, right, lhs_idx, rhs_idx, frac,
     # compute the weighted sum
     vleft = arr[lhs_idx]
     vright = arr[rhs_idx]
-    newval = vleft + _frac*(vright - vleft)
+    with np.errstate(invalid='ignore'):
+        newval = vleft + _frac*(vright - vleft)
+    # exact at the nodes, also next to (or on) a non-finite value
+    newval = np.where(_frac == 0, vleft, newval)
 
     # fill values
     newval[left_idx] = left
